@@ -229,6 +229,123 @@ CORPUS = [
     ("armless-match-statement-on-never", ["C03", "C12"], [["stm", ["match", ["at", ["array"], I(0)]]], E(I(1))]),
     ("match-on-never-with-arm", ["C03", "C12"], [
         ["set", "x", ["match", ["at", ["array"], I(0)], ["atype", "v", "int", ["block", E(V("v"))]]]]]),
+    # ---- round 2 of seeded changes: triggers that no generator reached
+    # a captured variable named like an if-set binder, used in the ELSE branch inside a closure
+    ("ifset-binder-shadows-captured-var-in-else", ["C02", "C06", "C12"], [
+        ["fndecl", "id", [["v", "int"]], "int", [ret(V("v"))]],
+        ["fndecl", "pick", [["v", ["multi", "int", "string"]]], ["multi", "int", "string"], [ret(V("v"))]],
+        ["set", "x", ["expr", ["call", V("id"), I(10)]]],
+        ["fndecl", "f", [["v", ["multi", "int", "string"]]], "int", [
+            ["stm", ["ifset", "x", "string", ["call", V("pick"), V("v")], ["block", ret(I(0))],
+                     ["block", ret(["bin", "+", V("x"), I(1)])]]]]],
+        E(["tuple", ["call", V("f"), I(5)], ["call", V("f"), S("a")]])]),
+    ("whileset-binder-shadows-captured-var", ["C02", "C06", "C12"], [
+        ["set", "x", ["expr", ["mut", None, I(10)]]],
+        ["fndecl", "f", [["v", ["multi", "int", "string"]]], "int", [
+            ["stm", ["whileset", "x", "string", V("v"), ["block", ret(I(0))]]],
+            ret(["bin", "+", ["pre", "deref", V("x")], I(1)])]],
+        E(["tuple", ["call", V("f"), I(5)], ["call", V("f"), S("a")]])]),
+    # statements after a diverging statement inside a module (inside a function)
+    ("module-with-code-after-return", ["C03", "C06", "C12"], [
+        ["fndecl", "f", [], "int", [
+            ["set", "m", ["expr", ["mod", ["set", "a", ["expr", I(1)]], ["stm", ["return", ["expr", V("a")]]], ["set", "b", ["expr", I(2)]]]]],
+            ret(I(0))]],
+        E(["call", V("f")])]),
+    ("module-with-code-after-break", ["C03", "C12"], [
+        ["set", "n", ["expr", ["mut", None, I(0)]]],
+        ["stm", ["loop", ["block", E(["bin", "+=", V("n"), I(1)]),
+                          ["set", "m", ["expr", ["mod", ["stm", "break"], ["set", "b", ["expr", I(2)]]]]]]]],
+        E(["pre", "deref", V("n")])]),
+    ("module-exports-only-its-own-names", ["C06"], [
+        ["set", "k", ["expr", I(7)]],
+        ["set", "m", ["expr", ["mod", ["set", "a", ["expr", I(1)]],
+                               ["stm", ["for", "k", ["post", ["array", I(1), I(2)], "~"], ["block"]]]]]],
+        E(V("m"))]),
+    # a `for` variable shadowing a variable of another type, inside a function; the variable after the loop
+    ("for-binder-shadows-in-function", ["C06", "C01"], [
+        ["fndecl", "f", [], "string", [
+            ["set", "x", ["expr", S("s")]],
+            ["stm", ["for", "x", ["post", ["array", I(1), I(2), I(3)], "~"], ["block", ["set", "y", ["expr", ["bin", "+", V("x"), I(1)]]]]]],
+            ret(["bin", "+", V("x"), S("!")])]],
+        E(["call", V("f")])]),
+    ("for-binder-not-visible-after-loop", ["C06", "C03"], [
+        ["fndecl", "f", [], "int", [
+            ["stm", ["for", "x", ["post", ["array", I(1), I(2), I(3)], "~"], ["block"]]],
+            ret(V("x"))]],
+        E(["call", V("f")])]),
+    # free names in the initial value of a reduce inside a closure (parameter of the enclosing function, cell)
+    ("reduce-init-captures-parameter", ["C06", "C04", "C11"], [
+        ["fndecl", "sum_from", [["start", "int"]], ["fun", [["arr", "int"]], "int"], [
+            ret(["fn", [["a", ["arr", "int"]]], "int", [
+                ret(["reduce", ["post", V("a"), "~"], V("start"),
+                     ["fn", [["acc", "int"], ["e", "int"]], "int", [ret(["bin", "+", V("acc"), V("e")])]]])]])]],
+        E(["call", ["call", V("sum_from"), I(100)], ["array", I(1), I(2), I(3)]])]),
+    ("reduce-init-reads-captured-cell", ["C06", "C04", "C11"], [
+        ["set", "base", ["expr", ["mut", None, I(5)]]],
+        ["fndecl", "f", [["a", ["arr", "int"]]], "int", [
+            ret(["reduce", ["post", V("a"), "~"], ["pre", "deref", V("base")],
+                 ["fn", [["acc", "int"], ["e", "int"]], "int", [ret(["bin", "+", V("acc"), V("e")])]]])]],
+        ["set", "r1", ["expr", ["call", V("f"), ["array", I(1), I(2)]]]],
+        E(["bin", "=", V("base"), I(50)]),
+        E(["tuple", V("r1"), ["call", V("f"), ["array", I(1), I(2)]]])]),
+    # a loop whose body ends in `break` and holds a conditional break / continue, inside another loop
+    ("inner-loop-ending-in-break-with-conditional-break", ["C12", "C04"], [
+        ["fndecl", "f", [], "int", [
+            ["set", "count", ["expr", ["mut", None, I(0)]]],
+            ["stm", ["for", "i", ["post", ["array", I(1), I(2), I(3)], "~"], ["block",
+                ["stm", ["loop", ["block",
+                    ["stm", ["if", ["bin", "==", V("i"), I(2)], ["block", ["stm", "break"]], None]],
+                    E(["bin", "+=", V("count"), I(10)]), ["stm", "break"]]]],
+                E(["bin", "+=", V("count"), I(1)])]]],
+            ret(["pre", "deref", V("count")])]],
+        E(["call", V("f")])]),
+    ("retry-loop-with-continue-then-break", ["C12", "C04"], [
+        ["fndecl", "f", [["n", "int"]], "int", [
+            ["set", "tries", ["expr", ["mut", None, I(0)]]],
+            ["stm", ["loop", ["block", E(["bin", "+=", V("tries"), I(1)]),
+                              ["stm", ["if", ["bin", "<", ["pre", "deref", V("tries")], V("n")], ["block", ["stm", "continue"]], None]],
+                              ["stm", "break"]]]],
+            ret(["pre", "deref", V("tries")])]],
+        E(["tuple", ["call", V("f"), I(1)], ["call", V("f"), I(3)]])]),
+    # the end marker of a type filter on a cell type is a FRESH cell every time
+    ("typefilter-end-marker-cell-is-fresh", ["C17", "C13", "C11", "C05", "C16"], [
+        ["fndecl", "end_of", [["cells", ["arr", ["mut", "int"]]]], ["mut", "int"], [
+            ["set", "it", ["expr", ["tfilter", ["post", V("cells"), "~"], ["mut", "int"]]]],
+            ret(["tacc", ["call", V("it")], 1])]],
+        ["set", "a", ["expr", ["call", V("end_of"), ["array"]]]],
+        E(["bin", "=", V("a"), I(41)]),
+        ["set", "b", ["expr", ["call", V("end_of"), ["array"]]]],
+        E(["tuple", ["pre", "deref", V("a")], ["pre", "deref", V("b")]])]),
+    # calling a member of an array of functions that take different cell types
+    ("call-union-of-functions-taking-cells", ["C13", "C10", "C01"], [
+        ["fndecl", "wide", [["c", ["mut", ["multi", "int", "float"]]]], "void", [E(["bin", "=", V("c"), ["c", ["f", 4612811918334230528]]])]],
+        ["fndecl", "narrow", [["c", ["mut", "int"]]], "void", [E(["bin", "=", V("c"), I(7)])]],
+        ["set", "writers", ["expr", ["array", V("wide"), V("narrow")]]],
+        ["set", "cell", ["expr", ["mut", None, I(1)]]],
+        E(["call", ["at", V("writers"), I(0)], V("cell")]),
+        E(V("cell"))]),
+    # a function is equal to itself, also when it reaches itself through its own name
+    ("function-identity-inside-own-body", ["C19", "C06"], [
+        ["fndecl", "f", [["g", "any"]], "bool", [ret(["bin", "==", V("f"), V("g")])]],
+        ["fndecl", "h", [], "any", [ret(V("h"))]],
+        ["fndecl", "m", [["g", "any"]], "string", [ret_stm(["match", V("g"), ["aval", [V("m")], ["block", E(S("me"))]], ["aother", ["block", E(S("other"))]]])]],
+        ["fndecl", "other", [["g", "any"]], "bool", [ret(B(True))]],
+        E(["tuple", ["call", V("f"), V("f")], ["call", V("f"), V("other")], ["bin", "==", ["call", V("h")], V("h")],
+           ["call", V("m"), V("m")], ["call", V("m"), V("f")], ["bin", "==", V("f"), V("f")], ["bin", "!=", V("f"), V("other")]])]),
+    # == / != against a bool literal at a union or any static type, inside a function (folded at closure creation)
+    ("eq-bool-literal-at-union-type-in-function", ["C19", "C04", "C01"], [
+        ["fndecl", "f", [["x", ["multi", "int", "bool"]]], "bool", [ret(["bin", "==", V("x"), B(True)])]],
+        ["fndecl", "g", [["x", "any"]], "bool", [ret(["bin", "!=", V("x"), B(False)])]],
+        ["fndecl", "k", [["x", ["multi", "int", "bool"]]], "bool", [ret(["bin", "==", B(True), V("x")])]],
+        E(["tuple", ["call", V("f"), I(5)], ["call", V("f"), B(True)], ["call", V("g"), S("a")], ["call", V("g"), B(False)],
+           ["call", V("g"), ["array", B(False)]], ["call", V("k"), I(1)], ["call", V("k"), B(True)]])]),
+    # a value arm whose candidate is only known at run time, with a constant scrutinee, inside a function
+    ("value-arm-runtime-candidate-constant-scrutinee", ["C19", "C12", "C07", "C04"], [
+        ["fndecl", "f", [["y", "int"]], "string", [ret_stm(["match", I(5), ["aval", [V("y")], ["block", E(S("eq"))]], ["aother", ["block", E(S("other"))]]])]],
+        ["set", "target", ["expr", I(5)]],
+        ["fndecl", "g", [["a", "int"], ["b", "int"]], "string", [ret_stm(["match", V("target"), ["aval", [V("a")], ["block", E(S("first"))]],
+                                                                              ["aval", [V("b")], ["block", E(S("second"))]], ["aother", ["block", E(S("none"))]]])]],
+        E(["tuple", ["call", V("f"), I(5)], ["call", V("f"), I(6)], ["call", V("g"), I(5), I(5)], ["call", V("g"), I(1), I(5)], ["call", V("g"), I(1), I(2)]])]),
     ("sum-never-missing-return", ["C01", "C02"], [
         ["fndecl", "f", [], "int", [["set", "x", ["expr", ["post", ["post", ["array"], "~"], "$+"]]]]],
         E(["bin", "+", ["call", V("f")], I(1)])]),
